@@ -1,7 +1,7 @@
 (* C11 - Pre-parsing yields a normal form and keeps every line.
    Only statements here; proofs are in Proofs/PreParse*.v. *)
 Require Import BB.Base.Str BB.Gen.TablesParser BB.Model.PreParse BB.Model.PreParseSpec.
-Require Import BB.Proofs.PreParseNF.
+Require Import BB.Proofs.PreParseNF BB.Proofs.PreParseLines.
 
 (* For every indent size and every text over the property's alphabet, pre_parse returns, and
    what it returns is empty or a sequence of newline-terminated lines whose first line is not
@@ -15,8 +15,7 @@ Print Assumptions C11_pre_parse_nf.
 
 (* The output is empty exactly for blank input; otherwise, removing the marker lines gives
    the lines of the tab-expanded, stripped text, each trimmed of spaces, in order.
-   [partial]: the step from "lines of the stripped text" to "the input's lines without the
-   leading and trailing blank ones" is not proved here; it is covered by the pre stage. *)
+   (An intermediate form: C11_keeps_lines below removes the reference to the stripped text.) *)
 Theorem C11_keeps_lines_partial : forall size s,
   alphabet_ok s = true ->
   exists o, pre_parse size s = Some o /\
@@ -27,6 +26,26 @@ Theorem C11_keeps_lines_partial : forall size s,
     end.
 Proof. exact pre_parse_keeps_lines. Qed.
 Print Assumptions C11_keeps_lines_partial.
+
+(* The full statement: removing the marker lines from the output gives exactly the lines of the
+   tab-expanded input, each trimmed of spaces, without the blank lines at both ends, in order;
+   nothing else is dropped, added or reordered.  For blank input both sides are empty. *)
+Theorem C11_keeps_lines : forall size s,
+  alphabet_ok s = true ->
+  exists o, pre_parse size s = Some o /\
+    match cleaned size s with
+    | [] => o = []
+    | _ :: _ => exists ls, o = unlines ls /\ NFlines ls
+                  /\ content_lines ls = trim_blank_ends (map trimsp (split_on NL (expand_tabs size s)))
+    end.
+Proof. exact pre_parse_keeps_lines_full. Qed.
+Print Assumptions C11_keeps_lines.
+
+Theorem C11_blank_input_has_no_lines : forall size s,
+  alphabet_ok s = true -> cleaned size s = [] ->
+  trim_blank_ends (map trimsp (split_on NL (expand_tabs size s))) = [].
+Proof. exact blank_text_no_lines. Qed.
+Print Assumptions C11_blank_input_has_no_lines.
 
 (* non-vacuity: an over-indented, multi-dedent text with tabs and trailing spaces is in the alphabet *)
 Example C11_alphabet_example :
